@@ -143,7 +143,51 @@ def watcher_descriptor_not_leaked_on_failure(ctx):
               "fails for good (EMFILE) - a re-created drop-in directory is then never watched again" % ", ".join(bad))
 
 
+def only_dot_files_are_ignored(ctx):
+    """'Converges to exactly the valid non-dot files present': the watcher passes a file name over - without looking at the file - only when
+    the name is empty or begins with a dot.  Every other early return of processDropInAdd / processDropInRemove comes after the file was
+    opened (its CONTENT is invalid) or does not exist.  A wider 'ignore' list (backup suffixes, editor leftovers) makes valid files
+    with such names never become active, and a rename to such a name switches a drop-in off without a trace."""
+    P, cg = ctx.prog, ctx.cg
+    FIRST = r"(file\.at\(0\)|file\.front\(\)|file\[0\]|\*file\.begin\(\))"
+    n = 0
+    for q, callee in (("Oomd::FsDropInService::processDropInAdd", "scheduleDropInAdd"), ("Oomd::FsDropInService::processDropInRemove", "scheduleDropInRemove")):
+        f = ctx.use(ctx.fn1(q))
+        if not f.params:
+            ctx.broken("only-dot-files-are-ignored:" + short(f), "anchor", f.loc(), "no file-name parameter")
+            continue
+        ev = {}
+        for d_ in f.all("decl"):
+            if any("ifstream" in (v_.get("type") or "") or "fstream" in (v_.get("type") or "") for v_ in f.nodes[d_].get("vars", [])) and f.pos_of(d_) is not None:
+                ev[d_] = [("set", "looked")]
+        for i in f.calls(callee, "open", "fopen"):
+            if f.pos_of(i) is not None:
+                ev.setdefault(i, []).append(("set", "looked"))
+        fl = Flow(P, f, events=ev, cg=cg)
+        for kind, node, b, parts in fl.exits():
+            if kind != "return" or node is None:
+                continue
+            if all("looked" in st.must for st in parts.values()):
+                continue
+            n += 1
+            g = fl.guards(node)
+            by_name = any(isinstance(k, str) and p is True and (k in ("file.empty()", "(0 == file.size())", "(file.size() == 0)") or
+                                                                (re.search(FIRST, k) and ("46" in k or "'.'" in k) and "==" in k and " || " not in k)) for k, p in g) or \
+                any(isinstance(k, str) and p is False and k in ("file.size()",) for k, p in g)
+            # `file.empty() || (file.size() && file.at(0) == '.')` as one condition: true means empty-or-dot
+            whole = any(isinstance(k, str) and p is True and re.fullmatch(r"\(file\.empty\(\) \|\| \((file\.size\(\)|!file\.empty\(\)) && \((%s == 46|46 == %s)\)\)\)" % (FIRST, FIRST), k)
+                        for k, p in g) or any(isinstance(k, str) and p is True and re.fullmatch(r"\(file\.empty\(\) \|\| \((%s == 46|46 == %s)\)\)" % (FIRST, FIRST), k) for k, p in g)
+            ctx.check(by_name or whole, "only-dot-files-are-ignored:%s@%d" % (short(f), f.nodes[node].get("line", 0)), "guarded_by (early returns before the file is looked at)", f.loc(node),
+                      "a name is passed over unseen only when it is empty or begins with a dot",
+                      "%s returns at line %d without having looked at the file, under %s - not (only) because the name is empty or begins with a dot: valid drop-in files "
+                      "whose names meet that condition never become active (and renaming an active drop-in to such a name removes it silently)"
+                      % (f.pq, f.nodes[node].get("line", 0), [(k, p) for k, p in g if isinstance(k, str)][:3]), witness_path(f, fl, node))
+    ctx.counters["name_based_returns"] = n
+    ctx.floor("name_based_returns", 2, "early returns of processDropInAdd / processDropInRemove taken before the file is looked at")
+
+
 def run(ctx):
+    only_dot_files_are_ignored(ctx)
     watcher_descriptor_not_leaked_on_failure(ctx)
     from .C13 import compile_dropin_refuses_whole_unit
     compile_dropin_refuses_whole_unit(ctx)
